@@ -1651,7 +1651,9 @@ static void do_source_file(const char *filename_in,
 
       if (need_backup)
       {
-         backup_create_md5_file(filename_in);
+         // record the MD5 of the text we are about to leave in the file (the
+         // output is still in the temporary file), not that of the old text
+         backup_create_md5_file(filename_in, filename_tmp.c_str());
       }
 
       if (filename_tmp != filename_out)
